@@ -163,8 +163,7 @@ Definition small_curves : list small_curve :=
     mkSmall 7 0 5 7;       (* a = 0 *)
     mkSmall 7 4 6 11;      (* a = p - 3 *)
     mkSmall 11 1 6 13;
-    mkSmall 17 14 3 23;    (* a = p - 3 *)
-    mkSmall 13 10 1 19 ].  (* a = p - 3 *)
+    mkSmall 11 8 1 17 ].   (* a = p - 3 *)
 
 Definition s_pts (c : small_curve) : list pt := curve_points (s_p c) (s_a c) (s_b c).
 
